@@ -40,13 +40,13 @@ def gen_cases(rng, tier, escalate=False):
     q = tier == "quick"
     cases = [ids_common.hole_case(["C05"])]
     for _ in range((24 if q else 240) * mult):
-        cases.append(ids_common.generated_case(rng, tier, ["C05"], peers=3, streams=rng.random() < 0.6, p_extra=0.3))
+        cases.append(ids_common.generated_case(rng, tier, ["C05"], peers=3, streams=rng.random() < 0.6, p_extra=0.3, probe_max=3))
     for _ in range((6 if q else 60) * mult):
-        cases.append(ids_common.generated_case(rng, tier, ["C05"], peers=1, streams=rng.random() < 0.5, p_extra=0.3))
+        cases.append(ids_common.generated_case(rng, tier, ["C05"], peers=1, streams=rng.random() < 0.5, p_extra=0.3, probe_max=3))
     for _ in range((8 if q else 60) * mult):
-        cases.append(ids_common.sequence_case(rng, tier, ["C05"]))
+        cases.append(ids_common.sequence_case(rng, tier, ["C05"], probe_max=3))
     for _ in range((1 if q else 8) * mult):
-        cases.append(ids_common.sequence_case(rng, tier, ["C05"], long=True))
+        cases.append(ids_common.sequence_case(rng, tier, ["C05"], long=True, probe_max=3))
     return cases
 
 
